@@ -188,7 +188,13 @@ class FormulaGenerator(ABC, Generic[QuantityT]):
                 predecessors = graph.predecessors(component.component_id)
                 if len(predecessors) == 1:
                     predecessor = predecessors.pop()
-                    if self._is_primary_fallback_pair(predecessor, component):
+                    # The meter measures everything that is connected to it, so it can
+                    # stand in for the components only if all of them are requested.
+                    if self._is_primary_fallback_pair(
+                        predecessor, component
+                    ) and graph.successors(predecessor.component_id).issubset(
+                        components
+                    ):
                         # predecessor is primary component and the component is one of the
                         # fallbacks components.
                         fallbacks.setdefault(predecessor, set()).add(component)
